@@ -132,3 +132,29 @@ def replay(ctx, payload):
     print("state:", payload["state"], "k:", payload["k"], "signal:", payload["sig"])
     print("result:", json.dumps(o)[:3000])
     return 0
+
+
+_k_run = run
+
+
+def run(ctx):  # noqa: F811
+    """+ overlapping launches of the same job script (pairs of REAL TaskRunner processes, see c05.pair_exploration): a launch made
+    while another one runs must execute the body exactly when no success marker exists once it owns the run lock."""
+    from .c05 import pair_exploration
+    res = _k_run(ctx)
+    pair_exploration(ctx, res)
+    res.coverage["rule"] += ("; plus pairs of real TaskRunner processes on one job directory: A stopped (SIGSTOP) at every traced line event, B "
+                             "launched meanwhile, A resumed - the body runs exactly once when no success marker existed, never when it did")
+    return res
+
+
+_k_replay = replay
+
+
+def replay(ctx, payload):  # noqa: F811
+    if payload.get("pair"):
+        from . import crash
+        crash.worker_init()
+        print(crash.launch_pair(payload["item"]))
+        return 0
+    return _k_replay(ctx, payload)
